@@ -675,6 +675,80 @@ pub fn replay_case(case: &Value, prop: &str) -> Vec<Violation> {
     v1
 }
 
+
+/// Integration layer through sessions (DESIGN.md §3/C03, §3/C04): a handful of exhaustively enumerated
+/// two-session histories on a shared in-memory GrafeoDB. C03: both sessions modify the same node while
+/// their transactions overlap — at most one commit may succeed. C04: the write-skew shape at Serializable.
+pub fn session_layer(prop: &str, rep: &mut Report) {
+    use grafeo_common::types::Value;
+    use grafeo_engine::GrafeoDB;
+    let writes: [(&str, &str); 3] = [("set-property", "MATCH (n:G {name: 'a'}) SET n.v = 2"), ("add-label", "MATCH (n:G {name: 'a'}) SET n:L2"), ("delete-node", "MATCH (n:G {name: 'a'}) DETACH DELETE n")];
+    // all interleavings of (begin, write, commit) x 2 sessions in which both begin before either commits
+    let steps = ["b0", "w0", "c0", "b1", "w1", "c1"];
+    let mut orders: Vec<Vec<&str>> = vec![];
+    fn perms<'a>(rest: Vec<&'a str>, cur: Vec<&'a str>, out: &mut Vec<Vec<&'a str>>) {
+        if rest.is_empty() {
+            out.push(cur);
+            return;
+        }
+        for i in 0..rest.len() {
+            let mut r = rest.clone();
+            let x = r.remove(i);
+            let mut c = cur.clone();
+            c.push(x);
+            perms(r, c, out);
+        }
+    }
+    perms(steps.to_vec(), vec![], &mut orders);
+    let pos = |o: &Vec<&str>, x: &str| o.iter().position(|y| *y == x).unwrap();
+    orders.retain(|o| pos(o, "b0") < pos(o, "w0") && pos(o, "w0") < pos(o, "c0") && pos(o, "b1") < pos(o, "w1") && pos(o, "w1") < pos(o, "c1") && pos(o, "b0") < pos(o, "c1") && pos(o, "b1") < pos(o, "c0"));
+    for (wi, (wname0, w0)) in writes.iter().enumerate() {
+        for (wname1, w1) in writes.iter().skip(if prop == "C03" { 0 } else { wi }) {
+            for ord in &orders {
+                let db = GrafeoDB::new_in_memory();
+                db.create_node_with_props(&["G"], [("name", Value::String("a".into())), ("v", Value::Int64(1))]);
+                db.create_node_with_props(&["G"], [("name", Value::String("b".into())), ("v", Value::Int64(1))]);
+                let mut s = [db.session(), db.session()];
+                let mut committed = [false, false];
+                let level = if prop == "C04" { grafeo_engine::transaction::IsolationLevel::Serializable } else { grafeo_engine::transaction::IsolationLevel::SnapshotIsolation };
+                for st in ord {
+                    let i = if st.ends_with('0') { 0 } else { 1 };
+                    match &st[..1] {
+                        "b" => {
+                            let _ = s[i].begin_tx_with_isolation(level);
+                        }
+                        "w" => {
+                            if prop == "C03" {
+                                let _ = s[i].execute(if i == 0 { w0 } else { w1 });
+                            } else {
+                                // write skew: each reads the other's node and writes its own
+                                let (mine, other) = if i == 0 { ("a", "b") } else { ("b", "a") };
+                                let _ = s[i].execute(&format!("MATCH (n:G {{name: '{other}'}}) RETURN n.v"));
+                                let _ = s[i].execute(&format!("MATCH (n:G {{name: '{mine}'}}) SET n.v = 0"));
+                            }
+                        }
+                        _ => committed[i] = s[i].commit().is_ok(),
+                    }
+                }
+                rep.evaluations += 1;
+                rep.transitions += ord.len() as u64;
+                rep.nontrivial(&(prop, wname0, wname1, ord));
+                if committed[0] && committed[1] {
+                    let case = json!({"engine": "SEQ/session-pair", "order": ord, "writes": [wname0, wname1]});
+                    if prop == "C03" {
+                        rep.violation(Violation::new(&[("layer", "session"), ("kind", "both-overlapping-writers-committed"), ("write0", wname0), ("write1", wname1)], case, format!("two overlapping session transactions both modified node a ({wname0} / {wname1}) and both commits succeeded (order {ord:?})")));
+                    } else {
+                        rep.violation(Violation::new(&[("layer", "session"), ("kind", "write-skew-both-committed")], case, format!("two overlapping Serializable session transactions each read the node the other wrote and both commits succeeded (order {ord:?})")));
+                    }
+                }
+            }
+            if prop == "C04" {
+                return;
+            }
+        }
+    }
+}
+
 pub fn run(prop: &'static str, args: vcore::Args) -> i32 {
     let (tier, replay) = (args.tier, args.replay.as_deref());
     if let Some(p) = replay {
@@ -689,6 +763,7 @@ pub fn run(prop: &'static str, args: vcore::Args) -> i32 {
         explore(cfg, &mut rep);
         eprintln!("layer max_tx={} entities={} depth={}: states so far {} ({:.1}s)", cfg.max_tx, cfg.entities, cfg.depth, rep.states, rep.elapsed_s() - t0);
     }
+    session_layer(prop, &mut rep);
     rep.traces_validated = rep.transitions; // every transition is executed on the real manager
     for m in &args.merge {
         // threaded layer (engine SCHED, scenario S7): schedules explored under the controlled scheduler
